@@ -285,6 +285,53 @@ def resource_ob(magic, tcode):
               bound="5 boundary length values", timeout=120, oracle="peak < 32 MiB and < 5 s (monitor)")
 
 
+def depth_ob(magic):
+    """adversarial nesting depth: containers nested far deeper than the interpreter's recursion limit (concrete probes)"""
+    def files():
+        import xdis.magics as M
+        head = M.int2magic(magic) + b"\0" * HDR[magic]
+        code_prefix = None
+        for depth in (50, 400, 4000, 60000):
+            for nm, unit in ((")", b")\x01"), ("(", b"(\x01\x00\x00\x00"), ("[", b"[\x01\x00\x00\x00"), ("{", b"{N"), ("<", b"<\x01\x00\x00\x00")):
+                if nm == ")" and magic < 3250 or (nm == ")" and magic > 20000):
+                    continue
+                yield "%s x %d" % (nm, depth), head + unit * depth + b"N" + (b"0" * depth if nm == "{" else b"")
+
+    def verdict(data):
+        import xdis.load as LD
+        devnull = open(os.devnull, "w")
+        saved = sys.stdout, sys.stderr
+        sys.stdout = sys.stderr = devnull
+        try:
+            try:
+                r = LD.load_module_from_file_object(io.BytesIO(data), filename="hostile.pyc", code_objects={})
+                return None if isinstance(r, tuple) and len(r) == 7 else "returned %s" % type(r).__name__
+            except ImportError:
+                return None
+            except BaseException as e:
+                return "raises %s" % type(e).__name__
+        finally:
+            sys.stdout, sys.stderr = saved
+            devnull.close()
+
+    def q():
+        n = 0
+        for label, data in files():
+            n += 1
+            v = verdict(data)
+            if v is not None:
+                return "refuted", "%s: %s" % (label, v), {"data": data}, 0, 0.0
+        return "confirmed", "probes=%d" % n, None, 0, 0.0
+
+    def replay(data):
+        v = verdict(data)
+        return None if v is None else "load_module on a %d-byte file starting %r (nested containers) %s instead of ImportError" % (len(data), data[:24], v)
+
+    return Ob(id="C11.depth.m%d" % magic, prop="C11", params=[], body=None, direct=q, replay=replay, funcs=FUNCS, region="depth",
+              skeleton="containers nested 50..60000 deep after magic %d" % magic, bound="4 depths x 5 container kinds (concrete)", timeout=300,
+              oracle="7-tuple or ImportError only")
+
+
 # symbolic bytes that the reader interprets as a *type code* or hands to a C-level text decoder are realised by
 # CrossHair one value at a time (256 paths per byte): cap the number of symbolic bytes per top-level type code so that at
 # most one such byte is symbolic (length/size/int payload bytes are unaffected and stay fully symbolic)
@@ -434,4 +481,6 @@ def generate(tier, seed):
     for t in "([<>{sutaAzZlf":
         obs.append(resource_ob(3413, ord(t)))
         obs.append(resource_ob(62211, ord(t)))
+    for m in (3413, 62211, 3495, 3230):
+        obs.append(depth_ob(m))
     return obs
